@@ -53,6 +53,7 @@ Proof.
   - rewrite pj_child, andb_true_r. reflexivity.
   - rewrite pj_child, andb_true_r. reflexivity.
   - rewrite is_true_and3, pj_child, sub_crit_is_sub. reflexivity.
+  - rewrite is_true_and3, pj_child, sub_crit_is_sub. reflexivity.
 Qed.
 
 Lemma is_nilg_map : forall l, is_nilg (map grow_c l) = is_nilc l.
